@@ -177,7 +177,7 @@ def main(argv=None):
 
     quick = ck.tier == "quick"
     histories = list(gen.corpus())
-    n_random = 60 if quick else 3000
+    n_random = 60 if quick else 2000
     for i in range(n_random):
         profile = ["mixed", "burst", "trickle", "bulk"][i % 4]
         histories.append((f"random-{profile}-{i}", ck.rng.random() > 0.08, gen.random_history(ck.rng, profile)))
